@@ -334,7 +334,9 @@ impl System for SignSys {
                                 viol.push(("count-ends-transfer".into(), format!("{:?}->{:?}", before, real.state()), format!("{}: the sign is now in {:?}, neither received nor failed", ctx(), real.state())));
                             }
                         }
-                        // keep exploring on the implementation's own state even if the model disagrees
+                        // keep exploring on the implementation's own state even if the model disagrees; the shadow is used
+                        // for bounds only here, so its state is never allowed to drift from the real one
+                        model.state = real.state();
                         let next = SignState { real, model };
                         Step { next: Some(next), violations: viol, tags, outcome: "ok" }
                     }
@@ -532,6 +534,7 @@ impl System for BusSys {
         for (i, sh) in shadow.iter_mut().enumerate() {
             let (_, open) = sh.step(m);
             sh.adopt(open, bus.sign(i).state(), bus.sign(i).pages().len());
+            sh.state = bus.sign(i).state(); // bounds only: no drift
         }
         // isolated reference instances: fed only what concerns them
         let mut iso = s.iso.clone();
